@@ -27,10 +27,13 @@ TRUSTED_BASE = [
 ASSUMPTIONS = [
     'the command line of a case consists of uses of the one container argument: "-l v" / "--list v" and free words; '
     'value words do not start with a dash and are not one of the control characters ( ) ! (lexing is C01)',
-    'kinds proved: all 11 ContainerAdapter kinds over int (sequence, front, set, multiset, unordered, priority queue) '
-    'for every option combination; T[N]/std::array, vector<string>, tuple, bitset, vector<bool>, map: fold / cut '
-    'independence proved for every option combination without "sort" (only arrays and vector<string> accept it), the '
-    'rest by correspondence',
+    'theorems: fold / cut independence / clear once / sorted / checks on every element for all 18 kinds and every '
+    'accepted option combination; content (placement), unique-drop and unique-refuse for the 11 ContainerAdapter kinds '
+    'over int; unique-drop for T[N]/std::array; positions for vector<bool>; overflow refusal for arrays, tuple, bitset. '
+    'vector<string> (unique, formats), map (pair format, key uniqueness) and the setters\' accept/refuse table '
+    '(setup_ok) beyond that only by correspondence',
+    'a use without elements (empty word, separators only) still counts for a cardinality: the fold theorems assume no '
+    'cardinality (the default of containers) or no such use; the oracle does not judge tuple cases with such uses',
     'not in the slot pool of the harness, hence not covered: DynamicBitset destinations, multimap / unordered_map, '
     'pair formats other than "k,v", position formats (addFormatPos), unsetFlag on bit sets',
     'vector<bool>: positions below 2^40 (pos * 1.5 is computed in double)',
@@ -201,8 +204,7 @@ def gen_cases(tier, rng):
                         uses = [render_use(p, sep, deco if i == (n % len(cut)) else 0) for i, p in enumerate(cut)]
                         spells = ['s' if rng.below(2) else 'l']
                         for u in uses[1:]:
-                            free_ok = u != '' or True
-                            if multi and rng.below(3) != 0 and free_ok:
+                            if multi and rng.below(3) != 0:
                                 spells.append('f')
                             else:
                                 spells.append('s' if rng.below(2) else 'l')
@@ -550,10 +552,6 @@ def _place_all(kind, cur, vals):
     return cur
 
 
-def _init_fix(kind, opts, val):
-    return val
-
-
 def spec_check(case, ir, mr):
     if ir is None:
         return 'no result from the implementation'
@@ -678,3 +676,24 @@ def shrink(case):
                 v = sep.join(parts[:j] + parts[j + 1:])
                 if not v.startswith('-'):
                     yield '%s arg:l,list:%s:%s %s' % (head, slot, '/'.join(opts), A.argv_tok(words[:i] + [v] + words[i + 1:]))
+
+
+CLAIM = {
+    'text': 'Coq theorems (Properties_C06.v) over an executable model of the assign() functions of all container '
+            'destinations (ArgH/Cont.v): for all 18 destination kinds, every option combination the setters accept and '
+            'every list of uses, the destination equals the fold of the flat element sequence (cont_fold), hence is '
+            'independent of how the sequence is cut into uses, lists and free values (cont_cut_independent); earlier '
+            'content is discarded exactly once (cont_clear_once); sorting yields ascending order; checks reach every '
+            'element; unique data drops resp. refuses duplicates; arrays, tuple and bitset refuse what they cannot '
+            'hold. Two defects of the pinned tree are proved on the pinned element steps (unique test of arrays on '
+            'unfilled slots, vector<bool> of size 1 loses position 1) and repaired by fixes/C06-1, C06-2. The model is '
+            'tied to the code by a correspondence check through the real Handler (all kinds x all option subsets x cuts).',
+    'note': 'trusted: Coq kernel, extraction (ExtrOcamlBasic), the hand-written model (validated by correspondence on '
+            'every run), the configuration translation of driver and harness; lexing of the command line is C01 (value '
+            'words do not start with a dash); DynamicBitset / multimap destinations and position formats are not in '
+            'the harness pool',
+    'technique': 'Coq proof (refinement of the use-by-use evaluation to a fold over the concatenated elements, '
+                 'permutation equivalence for sorting, history invariants); model/implementation correspondence, '
+                 'exhaustive small scopes in the thorough tier',
+    'design_ref': 'DESIGN.md section 5, C06',
+}
